@@ -380,4 +380,7 @@ def run(ctx):
     ti = rcls.methods["template_instance"]
     r5.check(any(isinstance(c, ast.Call) and call_name(c) == "generate_repeating_template" for c in walk_own(ti.node)), "template_instance", "nested repeat templates recurse through the same builder", ti.loc())
     rules.append(r5)
+    # a triggered calculation is still there when the same dict is built again (the builder only reads it)
+    from .c16 import builder_input_rule
+    rules.append(builder_input_rule(ctx, "C10", "C10.R7"))
     return rules
